@@ -172,6 +172,7 @@ inductive Decision where
   | direct (status : Nat) (body : Option String)
   | invalid                                -- selected route carries no action
   | notFound                               -- no route matched: Envoy answers 404
+  | tlsRedirect                            -- `require_tls: ALL` and a plain-text request: 301 to https
   deriving DecidableEq, Repr
 
 def Action.decision : Action → Decision
@@ -197,6 +198,7 @@ structure VirtualHost where
   name : String
   domains : List String
   routes : List Route
+  requireTls : Bool := false     -- `require_tls: ALL`
   deriving Repr
 
 /-- Domain classes of `VirtualHost.domains`. -/
@@ -244,7 +246,7 @@ def selectVHost (vhs : List VirtualHost) (authority : String) : Option VirtualHo
 /-- Whole route-configuration evaluation. -/
 def evalRouteConfig (re : Regex) (vhs : List VirtualHost) (req : Request) : Decision :=
   match selectVHost vhs req.authority with
-  | some v => evalRoutes re v.routes req
+  | some v => if v.requireTls && req.scheme == "http" then .tlsRedirect else evalRoutes re v.routes req
   | none => .notFound
 
 end IstioModel.C12
